@@ -162,6 +162,8 @@ class TypeCase(AbsInt):
         t = self.decide_type_test(test, st)
         if t is not None:
             return t
+        if isinstance(test, ast.Name) and "$b:" + test.id in st.vals and len(st.vals["$b:" + test.id]) == 1:
+            return next(iter(st.vals["$b:" + test.id]))          # a local holding the outcome of a test that was decided
         if isinstance(test, ast.UnaryOp) and isinstance(test.op, ast.Not):
             r = self.truth(test.operand, st)
             return None if r is None else not r
@@ -299,6 +301,19 @@ class TypeCase(AbsInt):
         if isinstance(s, ast.Assign):
             self.scan_expr(s.value, st)
             for t in s.targets:
+                if isinstance(t, ast.Name) and isinstance(s.value, (ast.Compare, ast.BoolOp, ast.UnaryOp)) and t.id not in self.msg_names:
+                    # `flag = msg.message_type == WAIT`: under the assumed kind this is a constant
+                    tv = self.truth(s.value, st)
+                    if tv is not None:
+                        st.vals["$b:" + t.id] = frozenset([tv])
+                        st.vals[t.id] = V("other")
+                        st.bump(("set", t.id, repr(tv)))
+                        continue
+                    st.vals.pop("$b:" + t.id, None)
+                elif isinstance(t, ast.Name):
+                    st.vals.pop("$b:" + t.id, None)
+                    if isinstance(s.value, ast.Constant) and isinstance(s.value.value, bool):
+                        st.vals["$b:" + t.id] = frozenset([s.value.value])
                 if isinstance(t, ast.Name):
                     cls = self.classify(s.value, st)
                     if t.id in self.msg_names and not (isinstance(s.value, ast.Constant) and s.value.value is None):
